@@ -969,6 +969,17 @@ theorem quiet_apiRun {tid : Nat} (ops : List ApiOp) {s s' : St} (hq : Quiet s) (
     | some s1 => simp only [ha] at hr; exact ih (quiet_apiStep hq ha) hr
 
 
+theorem astep_n {s s' : St} {tid : Nat} {a : Act} (hs : astep s tid a = some s') : s'.n = s.n := by
+  cases a <;> simp only [astep] at hs <;> (repeat' split at hs) <;>
+    first
+    | (cases hs; done)
+    | (cases hs; rfl)
+
+theorem reach_n {n : Nat} {s : St} (h : Reach n s) : s.n = n := by
+  induction h with
+  | init => rfl
+  | step _ hs ih => rw [astep_n hs]; exact ih
+
 /-! ### the content seen through a handle changes only by a write through that very handle -/
 
 theorem content_stable {s s' : St} {tid : Nat} {a : Act} {v b : Nat} {blk : Block} (h : Inv s)
